@@ -153,7 +153,7 @@ def evaluate(mod, cases, timeout_s, nproc):
     # implementation is deterministic and survives the retry, a transient stall (solver library, machine load) does not
     retry = [k for k, r in enumerate(impl_res)
              if isinstance(r, dict) and ("timeout" in r or str(r.get("crash", "")).startswith("worker died"))]
-    if retry and len(retry) <= 50:
+    if retry and len(retry) <= 12:
         again = implrun.run(mod.impl, [cases[k] for k in retry], timeout_s=2 * timeout_s, nproc=min(4, nproc))
         for k, r in zip(retry, again):
             impl_res[k] = r
@@ -161,6 +161,9 @@ def evaluate(mod, cases, timeout_s, nproc):
     reqs, spans = [], []
     oreq = getattr(mod, "oracle_requests", None)
     for c, r in zip(cases, impl_res):
+        if isinstance(r, dict) and r.get("skipped"):
+            spans.append((len(reqs), 0))
+            continue
         if oreq:
             rs = list(oreq(c, r))
         else:
@@ -173,6 +176,8 @@ def evaluate(mod, cases, timeout_s, nproc):
     for c, r, (s, k) in zip(cases, impl_res, spans):
         mres = model_all[s:s + k]
         failure = None
+        if isinstance(r, dict) and r.get("skipped"):
+            continue          # not evaluated: the run was cut short after repeated watchdog timeouts
         if isinstance(r, dict) and "timeout" in r:
             failure = {"kind": "timeout", "reason": f"implementation did not return within {r['timeout']} s"}
         elif isinstance(r, dict) and "crash" in r:
@@ -191,13 +196,14 @@ def evaluate(mod, cases, timeout_s, nproc):
     return out, {"impl_s": round(t1 - t0, 2), "oracle_s": round(t2 - t1, 2), "oracle_requests": len(reqs)}
 
 
-def shrink(mod, case, timeout_s, budget=150):
+def shrink(mod, case, timeout_s, budget=150, seconds=12.0):
     sh = getattr(mod, "shrink", None)
     if not sh:
         return case, 0
     steps = 0
     improved = True
-    while improved and steps < budget:
+    t_end = time.time() + seconds
+    while improved and steps < budget and time.time() < t_end:
         improved = False
         cands = list(sh(case))[:60]
         if not cands:
@@ -341,9 +347,9 @@ def main(argv):
             reported += 1
             continue
         sc = c
-        if not replay:
+        if not replay and f.get("kind") != "timeout" and reported < 3 and time.time() - t_start < 300:
             try:
-                sc, _ = shrink(mod, c, timeout_s)
+                sc, _ = shrink(mod, c, min(timeout_s, 5.0))
             except Exception:
                 sc = c
         if sc is not c:
